@@ -66,7 +66,7 @@ check('C17', 'Hypothesis-generated hostile and pooled inputs; LaTeX output scann
 
 check('C14', 'Hypothesis-generated paragraphs from a tricky-token vocabulary, filtered by an independent spec-derived inertness predicate; exact-output oracle',
       'hypothesis-sharded',
-      'Paragraphs of 1-4 lines assembled from ~190 tricky-but-inert tokens are kept when an own predicate (block-start patterns per line, '
+      'Paragraphs of 1-4 lines assembled from ~190 tricky-but-inert tokens, or from tokens composed freely out of letter runs, digit runs and any ASCII / Unicode punctuation, are kept when an own predicate (block-start patterns per line, '
       'inline triggers over the paragraph, emphasis by the independent model) proves them inert; HtmlRenderer output must then be exactly '
       '<p>escaped text</p>.',
       'Sampling only. The predicate is conservative (discards what it cannot prove inert; discard counts are in the evidence).',
